@@ -35,6 +35,16 @@ CHECKS.update({
          "'withheld only while X' is judged as not-X => delivered and X => OnNewConfig/source errors withheld; stacking-error callbacks while X holds are recorded, not judged",
          "DESIGN.md section 4 C09"),
 })
+CHECKS.update({
+ 'C03': ("runtime graph-isomorphism monitor (identity bijection over pointer- and map-typed locations, freshness, DeepEqual) over seeded random reference graphs, each built twice (input + expectation twin), through the real deep copier and through dials.Config/re-stack; crash isolation in child processes",
+         "Random finite graphs (1-12 nodes quick, more thorough; self-loops, cycles, diamonds, shared maps, references in slices, arrays, maps and interfaces, typed nils) over two recursive node families are copied by the real deepCopyValue (build-tagged export) and stacked end to end through dials.Config with fake static/watching sources; a simultaneous walk of input and output must yield a bijection of identities (no split, no merge), disjoint identity sets (fresh) and deep equality; runaway recursion is caught as a process crash attributed to the pre-logged case. Fixed regression corpus for every repaired defect runs at every seed.",
+         "identity of references held directly in interface values and of interior pointers (&node.ID) is measured, not judged (outside the identity clause / quantifier); node count bounded; node families fixed",
+         "DESIGN.md section 4 C03; notes/C03-FINDINGS.md"),
+ 'C08': ("chaos workload with operation ledger, state-based blocked-call confirmation (paired goroutine dumps), goroutine-leak monitor, post-shutdown failure-indication checks, gates at hook points for shutdown placement; race detector; crash attribution by the process watcher",
+         "4-12 goroutines issue seeded random public operations (reports, errors, Done, register/unregister incl. twice, EnableVerification, Blank.SetSource/Done, own contexts cancelled early, Config context cancelled) with seeded yields at the hook points; the instance is then shut down by cancel or by every watcher calling Done, and late calls are issued after the monitor exited. Every call must return once its own context ended (a still-blocked call is confirmed by two goroutine dumps, else inconclusive), no dials goroutine may survive shutdown, late calls must report failure, a callback parked forever must not stop 200 further installs, and any panic/fatal error of the worker process is a violation attributed to the pre-logged case.",
+         "interleavings are those produced (counted by signature); a watchdog expiry without the two-dump confirmation is inconclusive, never a violation",
+         "DESIGN.md section 4 C08"),
+})
 NOT_YET = "check not yet built in this session (planned in DESIGN.md section 4; the technique applies)"
 
 def main():
